@@ -99,6 +99,19 @@ func c04Events() []c04Event {
 		}},
 		{"meta-transient(NSRE)", false, func(cl *sim.Cluster) { cl.Script["hbase:meta,,1"] = append(cl.Script["hbase:meta,,1"], sim.ClsNSRE) }},
 		{"zk-error x2", false, func(cl *sim.Cluster) { cl.ZKScript = append(cl.ZKScript, "session expired", "connection loss") }},
+		// lookups that keep failing for longer than the region lookup timeout (30 s; the
+		// back-off between rounds passes it after a dozen failures) and then recover: the
+		// timeout bounds one round, not the whole search
+		{"meta-outage(NSRE x15)", false, func(cl *sim.Cluster) {
+			for i := 0; i < 15; i++ {
+				cl.Script["hbase:meta,,1"] = append(cl.Script["hbase:meta,,1"], sim.ClsNSRE)
+			}
+		}},
+		{"zk-outage x15", false, func(cl *sim.Cluster) {
+			for i := 0; i < 15; i++ {
+				cl.ZKScript = append(cl.ZKScript, "connection loss")
+			}
+		}},
 		// the server of region A hangs: it accepts requests and never answers (C18's silent
 		// server), its regions are reassigned; only the read timeout can tell the client
 		{"hang(serverOf A)", true, func(cl *sim.Cluster) {
